@@ -911,3 +911,41 @@ def enumeration_domain_matches_variable(rep: Report, rule: str, funcs: Iterable[
                 ok = t == norm(k) + ".type"
                 rep.check(ok, rule, f"`{norm(k)}` ranges over the objects of its own type", f.loc(l), construct=f"for {o} in …objects({t}): {{{norm(k)}: {o}}}", detail="" if ok else f"the loop instantiates `{norm(k)}` but enumerates the objects of `{t}`: when that is a strict subtype the instances for the other objects of `{norm(k)}`'s type are never produced (no initial value, no case of the expansion)", function=f.qualname)
     return n
+
+
+# ------------------------------------------------------------------------------------ clone shares a mutable container
+def clone_shares_mutable_state(rep: Report, rule: str, idx: Index, classes) -> int:
+    """In a `clone` / `_clone_to` method, `new.f = self.g` hands the copy the very container of the original. That is
+    harmless for values never changed in place, and a defect for a field that some method of the class family mutates
+    (subscript store, append / add / update / setdefault / pop …): later changes to one object show in the other.
+    Returns the number of direct field hand-overs examined."""
+    n = 0
+    for ci in classes:
+        family = [ci] + list(idx.subclasses(ci)) + [b for b in ci.mro if b is not ci]
+        mutated: Dict[str, str] = {}
+        for cj in family:
+            for mname, mf in cj.methods.items():
+                for a in walk_no_nested(mf.node):
+                    tgt = None
+                    if isinstance(a, ast.Call) and isinstance(a.func, ast.Attribute) and a.func.attr in _MUTATORS and isinstance(a.func.value, ast.Attribute) and norm(a.func.value.value) == "self":
+                        tgt = a.func.value.attr
+                    elif isinstance(a, (ast.Assign, ast.AugAssign, ast.Delete)):
+                        for t in (a.targets if isinstance(a, (ast.Assign, ast.Delete)) else [a.target]):
+                            if isinstance(t, ast.Subscript) and isinstance(t.value, ast.Attribute) and norm(t.value.value) == "self":
+                                tgt = t.value.attr
+                    if tgt:
+                        mutated.setdefault(tgt, f"{cj.name}.{mname}")
+        for mname in ("clone", "_clone_to"):
+            mf = ci.methods.get(mname)
+            if mf is None:
+                continue
+            for a in walk_no_nested(mf.node):
+                if not (isinstance(a, ast.Assign) and len(a.targets) == 1 and isinstance(a.targets[0], ast.Attribute) and isinstance(a.targets[0].value, ast.Name) and a.targets[0].value.id != "self"):
+                    continue
+                v = a.value
+                if not (isinstance(v, ast.Attribute) and norm(v.value) == "self"):
+                    continue
+                n += 1
+                ok = v.attr not in mutated
+                rep.check(ok, rule, f"{ci.name}.{mname}: `{v.attr}` handed to the copy is never changed in place", mf.loc(a), construct=norm(a)[:70] + ("" if ok else f" — mutated in place by {mutated[v.attr]}"), detail="" if ok else f"original and copy now hold the same `{v.attr}` object, which {mutated[v.attr]} changes in place: an operation on one of them changes what the other one answers (for a cache: the other one's analysis is returned)", function=mf.qualname)
+    return n
